@@ -199,9 +199,10 @@ theorem flatCfg_E : FlatCfg cfgE := ⟨rfl, rfl, ⟨rfl, rfl, rfl⟩, rfl, rfl, 
 
 /-- an option line through `mpt_parse_format_enc` (any start/end characters that are no name characters) -/
 theorem enc_option_line {cfg : Cfg} (hc : FlatCfg cfg) (hss : nameChar cfg.fmt.sstart = false)
+    (hse' : nameChar cfg.fmt.send = false)
     (e : List (List UInt8)) (s : St) (src : Src) (prev : Nat) (junk n pre post tr rest : List UInt8)
     (ov : Option (List UInt8))
-    (hclean : Clean e s.path) (hv : s.valid = 0) (hprev : PrevOpt prev)
+    (hclean : Clean e s.path) (hv : s.valid = 0) (hprev : PrevOpt prev ∨ (cfg.fmt.sstart == cfg.fmt.send) = false)
     (hj : visSkip false junk = some false) (hn : nameOk n = true)
     (hpre : pre.all isBlank = true) (hpost : post.all isBlank = true) (htr : trailOk tr = true)
     (hval : match ov with | some x => x.isEmpty = true ∨ valueOk x = true | none => True)
@@ -227,8 +228,11 @@ theorem enc_option_line {cfg : Cfg} (hc : FlatCfg cfg) (hss : nameChar cfg.fmt.s
       · rfl
       · have : c0 = cfg.fmt.sstart := by simpa using hh
         rw [this] at hn'; rw [hss] at hn'; simp at hn'
-    have hp2 : (prev == Flag.sectEnd) = false := by
-      rcases hprev with h | h | h <;> subst h <;> decide
+    have hce : (c0 == cfg.fmt.send) = false := by
+      cases hh : c0 == cfg.fmt.send
+      · rfl
+      · have : c0 = cfg.fmt.send := by simpa using hh
+        rw [this] at hn'; rw [hse'] at hn'; simp at hn'
     have hos : (cfg.fmt.ostart != 0) = false := by rw [hc.ostart]; rfl
     have hopt := option_rest hc e c0 n' pre post tr rest s.path.first s.curr ln ov src1 hn hpre hpost htr hval hr1
     have hmv : ({ ({ s with line := ln } : St) with path := ({ s with line := ln } : St).path.addchar c0 } : St).markValid
@@ -237,30 +241,19 @@ theorem enc_option_line {cfg : Cfg} (hc : FlatCfg cfg) (hss : nameChar cfg.fmt.s
       rfl
     unfold parseFormatEnc
     by_cases hse : (cfg.fmt.sstart == cfg.fmt.send) = true
-    · simp only [hse, ↓reduceIte, hp2, Bool.false_eq_true, hnv, hcs, Bool.and_false, bne_iff_ne, ne_eq,
+    · have hp2 : (prev == Flag.sectEnd) = false := by
+        rcases hprev with h | h
+        · rcases h with h | h | h <;> subst h <;> decide
+        · rw [hse] at h; cases h
+      simp only [hse, ↓reduceIte, hp2, Bool.false_eq_true, hnv, hcs, Bool.and_false, bne_iff_ne, ne_eq,
         beq_iff_eq, Bool.not_eq_true]
       have hne : ¬ c0 = cfg.fmt.sstart := by simpa using hcs
       simp only [hne, not_false_eq_true, ↓reduceIte, encOption, hos, Bool.false_eq_true, hmv]
       exact hopt
-    · simp only [hse, Bool.false_eq_true, ↓reduceIte, hnv, bne_iff_ne, ne_eq]
+    · simp only [hse, Bool.false_eq_true, ↓reduceIte, hnv, hce, Bool.and_false, bne_iff_ne, ne_eq]
       have hne : ¬ c0 = cfg.fmt.sstart := by simpa using hcs
       simp only [hne, not_false_eq_true, ↓reduceIte, encOption, hos, Bool.false_eq_true, hmv]
       exact hopt
-
-theorem optStyle_E : OptStyle .enc cfgE where
-  optLine := by
-    intro e s src prev junk n pre post tr rest ov h1 h2 h3 h4 h5 h6 h7 h8 h9 h10
-    simp only [next]
-    exact enc_option_line flatCfg_E (by decide) e s src prev junk n pre post tr rest ov h1 h2 h3 h4 h5 h6 h7 h8 h9 h10
-  eof := by
-    intro s src prev junk b hclean _ hj hsrc
-    obtain ⟨ln, src1, hnv, _⟩ := nextvis_end flatCfg_E.hash junk b s src hj hsrc
-    refine ⟨{ s with line := ln, curr := Flag.name }, src1, ?_⟩
-    simp only [next, parseFormatEnc]
-    have hse : (cfgE.fmt.sstart == cfgE.fmt.send) = false := by decide
-    have hem : s.path.elems.isEmpty = true := by rw [hclean.1]; rfl
-    simp [hse, hnv, hem]
-
 
 /-! ### enclosed format with one character for start and end: `|name` -/
 
@@ -456,7 +449,7 @@ theorem sectStyle_Bar : SectStyle .enc cfgBar [124] [] where
   optLine := by
     intro e s src prev junk n pre post tr rest ov h1 h2 h3 h4 h5 h6 h7 h8 h9 h10
     simp only [next]
-    exact enc_option_line flatCfg_Bar (by decide) e s src prev junk n pre post tr rest ov h1 h2 h3 h4 h5 h6 h7 h8 h9 h10
+    exact enc_option_line flatCfg_Bar (by decide) (by decide) e s src prev junk n pre post tr rest ov h1 h2 (Or.inl h3) h4 h5 h6 h7 h8 h9 h10
   eof := by
     intro s src prev junk b _ hprev hj hsrc
     obtain ⟨ln, src1, hnv, _⟩ := nextvis_end flatCfg_Bar.hash junk b s src hj hsrc
